@@ -392,7 +392,21 @@ def expanded_test(fi: FuncInfo, node: ast.Assert, depth: int = 6) -> str:
 
     import copy as _copy
 
-    return norm(ast.fix_missing_locations(Sub(depth).visit(_copy.deepcopy(node.test))))
+    tree = ast.fix_missing_locations(Sub(depth).visit(_copy.deepcopy(node.test)))
+    # what is still a local name (several definitions, loop variables) is replaced by a placeholder numbered by
+    # first appearance: the identity of an assert does not depend on how its locals are called
+    import builtins as _bi
+
+    stored = {n.id for n in ast.walk(fi.node) if isinstance(n, ast.Name) and isinstance(n.ctx, (ast.Store, ast.Del))}
+    text = norm(tree)
+    locals_left = {n.id for n in ast.walk(tree) if isinstance(n, ast.Name) and n.id in stored and n.id not in fi.params and not hasattr(_bi, n.id)}
+    order: Dict[str, str] = {}
+    for name in sorted(locals_left, key=lambda nm: (text.find(nm), nm)):
+        order[name] = "_L%d" % (len(order) + 1)
+    for n in ast.walk(tree):
+        if isinstance(n, ast.Name) and n.id in order:
+            n.id = order[n.id]
+    return norm(tree)
 
 
 def load_assert_table() -> Dict[str, dict]:
@@ -470,7 +484,7 @@ def rule_asserts(ctx: Ctx, rule: str = "assert-on-input") -> None:
                 # the same condition over renamed / re-introduced locals keeps its review
                 exp = expanded_test(fi, node)
                 for k2, e2 in table.items():
-                    if k2.startswith(fi.key + " :: ") and e2.get("expanded") == exp:
+                    if k2.startswith(fi.key + " :: ") and (e2.get("expanded") == exp or exp in e2.get("expanded_forms", [])):
                         ent = e2
                         break
             if ent is None:
